@@ -1329,5 +1329,19 @@ prop(dict(
 ))
 
 
+prop(dict(
+    id="G04", fam="G04",
+    gen=[("WrappersGen.tla", "WrappersGen.cfg", {})],
+    corpus=lambda entries, tier: [dict(fam="G04", kind="bytes", bytes=e["bytes"], **{"class": "corpus"}) for e in entries if len(e["bytes"]) <= 2100],
+    trace=("WrappersTrace.tla", "WrappersTrace.cfg"),
+    shards={"quick": 1, "thorough": 4},
+    nontrivial=lambda c: len(c.get("bytes", [])) + len(c.get("digits", [])) >= 1,
+    class_of=lambda c: c["class"],
+    rule="GROWTH: the deprecated *PartitionHeadChecker types and pkg/obu against the functions that replaced them on the empty string, all 256 one-byte strings, two- and three-byte strings "
+         "over a boundary alphabet and the repository's test strings; EncodeLEB128 / WriteToLeb128 / ReadLeb128 on digit sequences at every 7-bit boundary up to 2^56 - 1",
+    assumptions=COMMON_ASSUME + ["not one of the listed properties: findings are reported in DESIGN.md 9.7, never as a listed property's violation"],
+))
+
+
 for _id in ("C02", "C03", "C08", "C09", "C10", "C14"):
     PROPS[_id]["rule"] += CORPUS_RULE
